@@ -367,6 +367,71 @@ impl<K: Kind> Scenario for Bf<K> {
                 }
                 format!("{}..{}", r.start, r.end)
             }
+            "addnamed" | "frommap" => {
+                // addnamed <name>...  /  frommap <name>... (`-` = unnamed): variable creation with names on
+                // this diagram kind (C16: a rejected call keeps the variables before the duplicate; the
+                // kind's own bookkeeping, e.g. the ZBDD tautology chain, follows every change)
+                let names: Vec<String> = w[1..].iter().map(|x| if *x == "-" { String::new() } else { x.to_string() }).collect();
+                let before = self.n;
+                let out = if w[0] == "addnamed" {
+                    match self.mref().with_manager_exclusive(|m| m.add_named_vars(names.iter().cloned())) {
+                        Ok(r) => format!("ok {}..{}", r.start, r.end),
+                        Err(e) => format!("dup {} present={} added={}..{}", e.name, e.present_var, e.added_vars.start, e.added_vars.end),
+                    }
+                } else {
+                    let mut map = oxidd_core::util::VarNameMap::new();
+                    let mut rejected = None;
+                    for nm in &names {
+                        if nm.is_empty() {
+                            map.add_unnamed(1);
+                        } else if map.name_to_var(nm).is_some() {
+                            rejected = Some(nm.clone());
+                            break;
+                        } else {
+                            let _ = map.add_named([nm.clone()]);
+                        }
+                    }
+                    match rejected {
+                        Some(nm) => format!("map-rejects {}", nm),
+                        None => match self.mref().with_manager_exclusive(|m| m.add_named_vars_from_map(map)) {
+                            Ok(r) => format!("ok {}..{}", r.start, r.end),
+                            Err(e) => format!("dup {} present={} added={}..{}", e.name, e.present_var, e.added_vars.start, e.added_vars.end),
+                        },
+                    }
+                };
+                let (nl, nv) = self.mref().with_manager_shared(|m| (m.num_levels(), m.num_vars()));
+                if nl != nv {
+                    ctx.fail("levels-vs-vars", &format!("after `{}`: num_levels {} num_vars {}", line, nl, nv));
+                }
+                let n2 = nv;
+                if n2 < before {
+                    ctx.fail("vars-shrunk", &format!("after `{}`: num_vars {} < {}", line, n2, before));
+                    return out;
+                }
+                for t in self.tt.values_mut() {
+                    *t = K::extend_tt(t, n2);
+                }
+                self.n = n2;
+                let hs: Vec<String> = self.h.keys().cloned().collect();
+                for k in hs {
+                    let f = self.h[&k].clone();
+                    let act = self.actual_tt(&f, ctx, "after adding named variables");
+                    if act != self.tt[&k] {
+                        ctx.fail("addvars-changed-function", &format!("handle {} denotes {} after `{}`, expected {}", k, act.hex(), line, self.tt[&k].hex()));
+                        break;
+                    }
+                }
+                // names and numbers are mutually inverse
+                self.mref().with_manager_shared(|m| {
+                    for v in 0..n2 {
+                        let nm = m.var_name(v).to_string();
+                        if !nm.is_empty() && m.name_to_var(&nm) != Some(v) {
+                            ctx.fail("names-not-inverse", &format!("after `{}`: var_name({}) = {:?} but name_to_var gives {:?}", line, v, nm, m.name_to_var(&nm)));
+                        }
+                    }
+                });
+                out
+            }
             "const" => {
                 let v = w[2] == "T";
                 let r = self.mref().with_manager_shared(|m| if v { K::F::t(m) } else { K::F::f(m) });
